@@ -141,6 +141,30 @@ theorem supported_iff (a : Nat) : Supported (.payload a) ↔ a = 8 := by
   · intro h; simp at h; omega
   · rintro rfl; simp
 
+/-! ### what the code does where the property is silent: a payload digest without its algorithm tag
+
+The property speaks of "SHA-256 over the payload" and of "a recorded payload digest whose algorithm it does not support".
+A RPMTAG_PAYLOADDIGEST whose RPMTAG_PAYLOADDIGESTALGO is absent (or not an INT32) names no algorithm at all; the spec
+leaves that shape undecided (`DigestSpec` don't-care region 2) and the code SKIPS the payload block (`if let (Ok(..), Ok(..))`).
+Stated here so that the behaviour is a theorem of the model and not only a comment (audit item a1): whatever the digest
+text says, the payload contributes nothing to the verdict. -/
+
+/-- PAYLOADDIGEST present but PAYLOADDIGESTALGO unreadable: the payload block accepts, whatever is recorded -/
+theorem payload_digest_without_algo (sha256 : Bytes → Bytes) (p : Package)
+    (halgo : ∀ a, getU32 p.md.header IndexTag.RPMTAG_PAYLOADDIGESTALGO ≠ .ok a) :
+    checkPayload sha256 p = .ok () := by
+  unfold checkPayload
+  cases h1 : getStringArray p.md.header IndexTag.RPMTAG_PAYLOADDIGEST <;>
+    cases h2 : getU32 p.md.header IndexTag.RPMTAG_PAYLOADDIGESTALGO <;> first | rfl | exact absurd h2 (halgo _)
+
+/-- and likewise an algorithm tag without a digest array -/
+theorem payload_algo_without_digest (sha256 : Bytes → Bytes) (p : Package)
+    (hd : ∀ v, getStringArray p.md.header IndexTag.RPMTAG_PAYLOADDIGEST ≠ .ok v) :
+    checkPayload sha256 p = .ok () := by
+  unfold checkPayload
+  cases h1 : getStringArray p.md.header IndexTag.RPMTAG_PAYLOADDIGEST <;>
+    cases h2 : getU32 p.md.header IndexTag.RPMTAG_PAYLOADDIGESTALGO <;> first | rfl | exact absurd h1 (hd _)
+
 /-! ### the model's outcome is always one the spec's verdict function accepts -/
 
 /-- observation class of a model outcome -/
